@@ -87,6 +87,7 @@ class Pool:
         self.base = tempfile.mkdtemp(prefix="c10-runs-", dir=vlib.SCRATCH)
         self.loaders = [cc.Loader(exe) for _ in range(n)]
         self.free = list(range(n))
+        self.retries = 0
         self.ex = cf.ThreadPoolExecutor(max_workers=n)
 
     def map(self, fn, items):
@@ -94,7 +95,15 @@ class Pool:
         def wrap(item):
             i = self.free.pop()
             try:
-                return fn(self.loaders[i], self.base, item)
+                try:
+                    return fn(self.loaders[i], self.base, item)
+                except cc.CoordError as e:
+                    # infrastructure trouble (a timeout on an overloaded machine): one fresh attempt, then give up (exit 2)
+                    vlib.log("coordinator trouble, retrying once: %s" % str(e)[:1500])
+                    self.retries += 1
+                    self.loaders[i].close()
+                    self.loaders[i] = cc.Loader(self.exe)
+                    return fn(self.loaders[i], self.base, item)
             finally:
                 self.free.append(i)
         return list(self.ex.map(wrap, items))
@@ -448,6 +457,7 @@ def _run(ctx, exe, pool, quick, rnd):
             raise vlib.InfraError("FinalJobFile: %d states for %d records" % (r.distinct, len(lst)))
         os.unlink(path)
     ctx.extra["free_runs"] = nfree
+    ctx.extra["infrastructure_retries"] = pool.retries
     vlib.log("phase 6 (%d free-running executions) done %.0fs" % (nfree, time.time() - T0))
 
     for f in tlc_futs:
